@@ -18,12 +18,12 @@ func init() {
 }
 
 func init() {
-	props["C12"] = []Stream{{"cleaner", genCleaner}}
+	props["C12"] = []Stream{{"cleaner", genCleaner}, {"loop-restart", genLoopRestart}}
 }
 
 func init() {
 	props["C18"] = []Stream{{"txn", genTxn}, {"c18-oracle", genTxnFlavor("c18")}}
-	props["C10"] = []Stream{{"txn", genTxn}, {"c10-oracle", genTxnFlavor("c10")}, {"strategy", genStrat}}
+	props["C10"] = []Stream{{"txn", genTxn}, {"c10-oracle", genTxnFlavor("c10")}, {"strategy", genStrat}, {"loop", genLoop}}
 	props["C06"] = []Stream{{"txn", genTxn}, {"c06-oracle", genTxnFlavor("c06")}}
 	props["C11"] = []Stream{{"txn", genTxn}, {"c11-oracle", genTxnFlavor("c11")}}
 }
@@ -46,14 +46,14 @@ func init() {
 
 func init() {
 	props["C07"] = []Stream{{"wire-varint", genWireVarint}, {"wire-valid", genWireValid}, {"wire-reencode", genWireReencode}, {"wire-unknown-dbi", genWireUnknownDBI}}
-	props["C08"] = []Stream{{"wire-varint", genWireVarint}, {"wire-malformed", genWireMalformed}, {"wire-unknown-dbi", genWireUnknownDBI}}
+	props["C08"] = []Stream{{"wire-varint", genWireVarint}, {"wire-malformed", genWireMalformed}, {"wire-unknown-dbi", genWireUnknownDBI}, {"recv", genRecv}}
 }
 
 func init() {
 	props["C01"] = []Stream{{"merge", genMerge}, {"merge-order", genMergeOrder}, {"loop", genLoop}}
 	props["C03"] = []Stream{{"loop", genLoop}, {"c11-oracle", genTxnFlavor("c11")}}
 	props["C09"] = []Stream{{"loop", genLoop}, {"loop-restart", genLoopRestart}}
-	props["C05"] = []Stream{{"loop-restart", genLoopRestart}, {"cleaner-commit", genCleanerCommit}}
+	props["C05"] = []Stream{{"loop-restart", genLoopRestart}, {"cleaner-commit", genCleanerCommit}, {"cleaner", genCleaner}}
 }
 
 func init() {
